@@ -23,6 +23,8 @@ import (
 )
 
 type replayFile struct {
+	Sched   []schedStep       `json:"sched"`
+	Gors    []gorInfo         `json:"goroutines"`
 	Harness string            `json:"harness"`
 	Label   string            `json:"label"`
 	Ints    map[string]string `json:"ints"`
@@ -59,10 +61,15 @@ func RunReplay(t *testing.T, harnesses map[string]func()) {
 	if h == nil {
 		t.Fatalf("no harness %q", rf.Harness)
 	}
+	initPin(rf.Sched, rf.Gors)
 	before := runtime.NumGoroutine()
 	done := make(chan struct{})
 	go func() {
 		defer close(done)
+		registerMain()
+		if pn != nil {
+			defer pn.finish(0)
+		}
 		defer func() {
 			if r := recover(); r != nil {
 				if _, ok := r.(cutPanic); ok {
@@ -225,7 +232,11 @@ func AtomicEnd()   {}
 
 // GoEnv starts an environment goroutine (an event source such as a canceller or
 // a timer). The engine explores every placement of its steps.
-func GoEnv(name string, f func()) { go f() }
+func GoEnv(name string, f func()) { Go("env:"+name, f) }
+
+// EnvPoint is the scheduling point of an environment event: the engine explores
+// every placement of it; natively it is the replay point with that name.
+func EnvPoint(name string) { Point(name) }
 
 // AllocLimit installs the allocation monitor: every make() whose size depends on
 // symbolic input must request at most n elements. Natively the bytes allocated
@@ -292,3 +303,7 @@ func Preempted() int { return 0 }
 // SetUntil fixes what time.Until returns for the rest of the path (the clock is
 // abstract under the engine). No-op natively.
 func SetUntil(d time.Duration) {}
+
+// Quiesce returns once no other goroutine of the program can make progress (every
+// one is blocked or finished). Natively it is a short sleep.
+func Quiesce() { time.Sleep(40 * time.Millisecond) }
